@@ -9,6 +9,7 @@ def run(tree, rep, tier):
     T = Tables(tree)
     T.inventory(rep)
     flow = Flow(tree)
+    flow.describe(rep)
     G1_siblings(rep, flow, T, tier)
     G2_served(rep, flow, T)
     G4_strict(rep, flow, ["stabilizer_circuits.get_preparation_circuit", "stabilizer_circuits.compress_preparation_circuit"])
